@@ -185,11 +185,13 @@ Fixpoint crlf_writer (hadCR : bool) (chunks : list bytes) : option (bytes * list
 Inductive autocrlf := ACFalse | ACInput | ACTrue.
 
 (* copyObjectToWorktree: the object is read twice; first by GetStat (through a
-   bufio.Reader), then copied through the optional CRLF writer chunk by chunk *)
+   bufio.Reader), then copied chunk by chunk, through the CRLF writer iff
+   !stat.IsBinary() && stat.CRLF == 0 *)
 Definition checkout_conv (ac : autocrlf) (chunks : list bytes) : option bytes :=
   match ac with
   | ACTrue =>
-    if is_binary (get_stat (List.concat chunks)) then Some (List.concat chunks)
+    let st := get_stat (List.concat chunks) in
+    if is_binary st || negb (s_crlf st =? 0) then Some (List.concat chunks)
     else option_map fst (crlf_writer false chunks)
   | _ => Some (List.concat chunks)
   end.
